@@ -557,9 +557,15 @@ pub enum Cl {
     Filter(Ex),
     With(Vec<u32>, Vec<(u32, Ex)>),
     Create(Vec<CPath>),
+    /// CREATE of ONE comma-free path: nodes n0..nL and L relationships (type, literal properties, outgoing?).
+    /// A variable that recurs at a later position is written bare there; for the model the chain is the
+    /// equivalent list of single-relationship paths (a recurring / already declared variable is a reference).
+    CreateChain(Vec<NPat>, Vec<(u32, Vec<(u32, Ex)>, bool)>),
     Merge(NPat, Vec<SetItem>, Vec<SetItem>),
     /// MERGE (a)-[:T]->(b) with both ends unbound pattern nodes
     MergeRel(NPat, u32, NPat),
+    /// the same with ON CREATE SET / ON MATCH SET items (the model term drops the items: not modelled)
+    MergeRelOn(NPat, u32, NPat, Vec<SetItem>, Vec<SetItem>),
     Set(Vec<SetItem>),
     Remove(Vec<RemItem>),
     Delete(bool, Vec<u32>),
@@ -618,7 +624,7 @@ impl SetItem {
 
 impl Cl {
     pub fn is_write(&self) -> bool {
-        matches!(self, Cl::Create(_) | Cl::Merge(..) | Cl::MergeRel(..) | Cl::Set(_) | Cl::Remove(_) | Cl::Delete(..))
+        matches!(self, Cl::Create(_) | Cl::CreateChain(..) | Cl::Merge(..) | Cl::MergeRel(..) | Cl::MergeRelOn(..) | Cl::Set(_) | Cl::Remove(_) | Cl::Delete(..))
     }
     pub fn kind(&self) -> &'static str {
         match self {
@@ -629,8 +635,10 @@ impl Cl {
             Cl::Filter(_) => "where",
             Cl::With(..) => "with",
             Cl::Create(_) => "create",
+            Cl::CreateChain(..) => "createchain",
             Cl::Merge(..) => "merge",
             Cl::MergeRel(..) => "mergerel",
+            Cl::MergeRelOn(..) => "mergerelon",
             Cl::Set(_) => "set",
             Cl::Remove(_) => "remove",
             Cl::Delete(false, _) => "delete",
@@ -661,6 +669,17 @@ impl Cl {
                     .collect::<Vec<_>>()
                     .join(", ")
             ),
+            Cl::CreateChain(nodes, rels) => {
+                let mut s = format!("CREATE {}", nodes[0].cypher());
+                for (i, (ty, ps, out)) in rels.iter().enumerate() {
+                    if *out {
+                        s.push_str(&format!("-[:T{}{}]->{}", ty, props_cy(ps), nodes[i + 1].cypher()));
+                    } else {
+                        s.push_str(&format!("<-[:T{}{}]-{}", ty, props_cy(ps), nodes[i + 1].cypher()));
+                    }
+                }
+                s
+            }
             Cl::Merge(p, oc, om) => {
                 let mut s = format!("MERGE {}", p.cypher());
                 if !oc.is_empty() {
@@ -672,6 +691,16 @@ impl Cl {
                 s
             }
             Cl::MergeRel(a, ty, b) => format!("MERGE {}-[:T{}]->{}", a.cypher(), ty, b.cypher()),
+            Cl::MergeRelOn(a, ty, b, oc, om) => {
+                let mut s = format!("MERGE {}-[:T{}]->{}", a.cypher(), ty, b.cypher());
+                if !oc.is_empty() {
+                    s.push_str(&format!(" ON CREATE SET {}", oc.iter().map(|i| i.cypher()).collect::<Vec<_>>().join(", ")));
+                }
+                if !om.is_empty() {
+                    s.push_str(&format!(" ON MATCH SET {}", om.iter().map(|i| i.cypher()).collect::<Vec<_>>().join(", ")));
+                }
+                s
+            }
             Cl::Set(items) => format!("SET {}", items.iter().map(|i| i.cypher()).collect::<Vec<_>>().join(", ")),
             Cl::Remove(items) => format!(
                 "REMOVE {}",
@@ -710,13 +739,29 @@ impl Cl {
                     .collect::<Vec<_>>()
                     .join(",")
             ),
+            Cl::CreateChain(nodes, rels) => {
+                if rels.is_empty() {
+                    return format!("C({})", nodes[0].model());
+                }
+                // the start of every later segment is a bare reference to the node the previous one ended at
+                let bare = |n: &NPat| NPat { var: n.var, labels: vec![], props: vec![] }.model();
+                let parts: Vec<String> = rels
+                    .iter()
+                    .enumerate()
+                    .map(|(i, (ty, ps, out))| {
+                        let a = if i == 0 { nodes[0].model() } else { bare(&nodes[i]) };
+                        format!("{}{}{}{}{}{}", a, if *out { ">" } else { "<" }, ty, props_m(ps), if *out { ">" } else { "<" }, nodes[i + 1].model())
+                    })
+                    .collect();
+                format!("C({})", parts.join(","))
+            }
             Cl::Merge(p, oc, om) => format!(
                 "MG({},[{}],[{}])",
                 p.model(),
                 oc.iter().map(|i| i.model()).collect::<Vec<_>>().join(","),
                 om.iter().map(|i| i.model()).collect::<Vec<_>>().join(",")
             ),
-            Cl::MergeRel(a, ty, b) => format!("MP({},{},{})", a.model(), ty, b.model()),
+            Cl::MergeRel(a, ty, b) | Cl::MergeRelOn(a, ty, b, _, _) => format!("MP({},{},{})", a.model(), ty, b.model()),
             Cl::Set(items) => format!("S({})", items.iter().map(|i| i.model()).collect::<Vec<_>>().join(",")),
             Cl::Remove(items) => format!(
                 "RM({})",
